@@ -1,6 +1,7 @@
 import SkgVerif.Model.Propagate
 import SkgVerif.Lemmas.Edges
 import SkgVerif.Lemmas.Median
+import SkgVerif.Gen.Source
 /-!
 # C19 — uncertainty propagation: ordered, reproducible bounds; source left untouched
 -/
@@ -68,5 +69,12 @@ theorem C19_member_cfg_partial (ds : List Rat) (v : Rat) :
     (resolveMaxlag (.num (1/2)) [1/5, 3/5, 4/5] = some (2/5) ∧
      resolveMaxlag (.num (2/5)) [1/5, 3/5, 4/5] ≠ some (2/5)) := by
   refine ⟨fun h => by simp [resolveMaxlag, not_lt.2 h], by decide +kernel, by decide +kernel⟩
+
+/-- the percentile levels and the three result columns of `propagate` as they are in the source
+now: `q/2`, median, `100 − q/2` -/
+theorem C19_source : Gen.propagateSource =
+    [("lower_level", "ql = kwargs.get('q', 10) / 2"),
+     ("upper_level", "qu = 100 - kwargs.get('q', 10) / 2"),
+     ("columns", "np.percentile(res, ql, axis=0) | np.median(res, axis=0) | np.percentile(res, qu, axis=0)")] := by rfl
 
 end Skg
